@@ -48,6 +48,7 @@ type sessStep struct {
 	Msg   string    `json:"msg"`
 	Out   []string  `json:"out"`
 	Sinks []string  `json:"sinks"`
+	Alt   bool      `json:"alt"`
 	St    sessState `json:"st"`
 }
 
@@ -189,7 +190,10 @@ type session struct {
 	tally   map[string]int // every message received so far, by command
 	getdata [][]byte       // payloads of the getdata messages received so far
 
-	lastTx        *wire.MsgTx         // the transaction txAgain / invSeen refer to
+	lastTx        *wire.MsgTx // the transaction txAgain / invSeen refer to
+	altOn         bool        // an alternate header handler is installed (half of the sessions)
+	altMu         sync.Mutex
+	altGot        [][]byte            // what it read, per invocation
 	altHeaders    *headers.Repository // repository behind the alternate header handler, if one is installed
 	wanted        []byte              // the requested block (payload of its block message)
 	blockCalls    int32
@@ -230,6 +234,30 @@ func newSession(beh *sessBeh, seed int64, big bool) *session {
 	}
 	if beh.VerifyOnly {
 		s.node.SetVerifyOnly()
+	}
+	if s.rng.Intn(2) == 0 {
+		// an alternate header handler that, like headers.Repository.HandleHeadersMessage, reads the count and then
+		// that many headers (81 bytes each) and returns
+		s.altOn = true
+		s.node.SetHeaderHandler(func(ctx context.Context, header *wire.MessageHeader, r io.Reader) error {
+			var got bytes.Buffer
+			tee := io.TeeReader(r, &got)
+			defer func() {
+				s.altMu.Lock()
+				s.altGot = append(s.altGot, got.Bytes())
+				s.altMu.Unlock()
+			}()
+			count, err := wire.ReadVarInt(tee, wire.ProtocolVersion)
+			if err != nil {
+				return err
+			}
+			for i := uint64(0); i < count; i++ {
+				if _, err := io.CopyN(io.Discard, tee, 81); err != nil {
+					return err
+				}
+			}
+			return nil
+		})
 	}
 	a, b := net.Pipe()
 	s.conn = b
@@ -566,6 +594,7 @@ func (s *session) run(behIdx int) []sessDiv {
 		out := map[string]int{}
 		nonce := s.rng.Uint64()
 		var data []byte
+		var hdrPayload []byte
 		sent := true
 		coalesced := false
 		bn := s.rng.Uint64()
@@ -591,6 +620,9 @@ func (s *session) run(behIdx int) []sessDiv {
 				data = s.build(st.Msg)
 			}
 			s.trace = append(s.trace, fmt.Sprintf("%s(%d bytes)", st.Msg, len(data)))
+			if strings.HasPrefix(st.Msg, "hdr") && len(data) >= 24 {
+				hdrPayload = append([]byte{}, data[24:]...)
+			}
 			// half of the messages travel together with the barrier ping in one write (two messages in one
 			// segment): a handler that reads ahead of its own payload swallows the ping
 			verifyingHeaders := s.beh.VerifyOnly && st.St.Closed && !st.St.Ready && strings.HasPrefix(st.Msg, "hdr")
@@ -712,6 +744,24 @@ func (s *session) run(behIdx int) []sessDiv {
 			// before the peer is verified nothing writes to the address book, not even to the peer's own entry
 			hard = true
 			fail(step, "C13", fmt.Sprintf("after %s: the address book was written (UpdateTime / UpdateScore, %d calls) for a peer that is not verified", st.Msg, upd))
+		}
+		if s.altOn && st.Alt && hdrPayload != nil {
+			// beyond the listed properties (label X-alt: counted and reported as a note, never as a violation): the
+			// alternate header handler is given every byte of the message
+			seen := false
+			for t := 0; t < int(s.d(300)) && !seen; t++ {
+				s.altMu.Lock()
+				for _, g := range s.altGot {
+					seen = seen || bytes.Equal(g, hdrPayload)
+				}
+				s.altMu.Unlock()
+				if !seen {
+					time.Sleep(time.Millisecond)
+				}
+			}
+			if !seen {
+				fail(step, "X-alt", fmt.Sprintf("after %s: the alternate header handler was not given the complete message (%d bytes)", st.Msg, len(hdrPayload)))
+			}
 		}
 		if s.node.Verified() != st.St.Verified {
 			p := "C13"
